@@ -44,6 +44,20 @@ theorem commission_unwraps_exec : Sif.Generated.Ante.commissionUnwrapsExec = som
     earlier in the same transaction are added per validator and in total  [fails without the F23 repair] -/
 theorem commission_cumulative : Sif.Generated.Ante.commissionCumulative = some true := by decide
 
+/-- the validators the decorator judges come from the staking store and nowhere else: `getValidator`
+    takes (ctx, address) and returns only what `sk.GetValidator` found (otherwise an error), no function
+    of the package builds a validator of its own, the only read of a validator's tokens is the one in
+    the projection, and the projection is fed by `getValidator` of the message's target address
+    [fails on a decorator that invents validators, e.g. for addresses an earlier message creates] -/
+theorem validators_come_from_the_store :
+    Sif.Generated.Ante.getValidatorParams = ["sdk.Context", "string"] ∧
+    Sif.Generated.Ante.getValidatorStoreOnly = some true ∧
+    Sif.Generated.Ante.inventsValidators = false ∧
+    Sif.Generated.Ante.tokenReads = ["calculateProjectedVotingPower: validator.GetTokens"] ∧
+    Sif.Generated.Ante.projectionSources =
+      ["vcd.getValidator(ctx, msg.ValidatorAddress)", "vcd.getValidator(ctx, msg.ValidatorDstAddress)"] := by
+  decide
+
 /-- its type switch still has the four staking cases -/
 theorem commission_cases_present :
     ["stakingtypes.MsgCreateValidator", "stakingtypes.MsgEditValidator", "stakingtypes.MsgDelegate",
@@ -109,8 +123,8 @@ theorem staking_rules (env : StakeEnv) (ms : List Msg) (he : envValid env = true
 theorem stakingOK_parts {env : StakeEnv} {ms : List Msg}
     (h : stakingOK true docMinCommission docMaxVotingPower env ms = true) :
     (∀ l ∈ leavesList ms, commissionOK docMinCommission l.body = true) ∧
-    seqCapOK docMaxVotingPower env Pending.empty (leavesList ms) = true ∧
-    endOK docMaxVotingPower env (finalPending env Pending.empty (leavesList ms)) = true := by
+    seqCapOKx docMaxVotingPower env Pending.empty (leavesList ms) = true ∧
+    endOK docMaxVotingPower (finalX env Pending.empty (leavesList ms)).1 (finalX env Pending.empty (leavesList ms)).2 = true := by
   simp only [stakingOK, Bool.not_true, Bool.false_or, Bool.and_eq_true] at h
   exact ⟨List.all_eq_true.mp h.1.1, h.1.2, h.2⟩
 
@@ -118,7 +132,7 @@ theorem stakingOK_parts {env : StakeEnv} {ms : List Msg}
     MsgCreateValidator with a commission rate below 5 %. -/
 theorem commission_floor (env : StakeEnv) (ms : List Msg) (he : envValid env = true)
     (ha : amountsValid ms = true) (h : comDecide genComCfg env ms = .ok true)
-    (url : String) (r : Int) (hl : ⟨url, .createVal r⟩ ∈ leavesList ms) : docMinCommission ≤ r := by
+    (url v : String) (r value : Int) (hl : ⟨url, .createVal r v value⟩ ∈ leavesList ms) : docMinCommission ≤ r := by
   have := (stakingOK_parts (staking_rules env ms he ha h)).1 _ hl
   simpa [commissionOK] using this
 
@@ -129,16 +143,19 @@ theorem commission_floor_edit (env : StakeEnv) (ms : List Msg) (he : envValid en
   have := (stakingOK_parts (staking_rules env ms he ha h)).1 _ hl
   simpa [commissionOK] using this
 
-/-- **power_cap** (cumulative, F23): after an accepted transaction, every validator `v` that any of
-    its messages — at any depth, in any number — delegated or redelegated to, holding `tok` before,
-    ends strictly below 6.6 % of the bonded-plus-unbonding stake:
-    1000·(tok + everything the transaction adds to v) < 66·(total + everything it newly delegates). -/
+/-- **power_cap** (cumulative, F23; created validators, C19-2): after an accepted transaction, every
+    validator `v` that any of its messages — at any depth, in any number — delegated or redelegated to
+    ends strictly below 6.6 % of the bonded-plus-unbonding stake, where the stake `envEnd` is the one the
+    transaction started from plus every validator it creates (holding its self-delegation) and `tok` is
+    what `v` holds in it:
+    1000·(tok + every (re)delegation of the transaction to v) < 66·(total + created self-delegations + new delegations). -/
 theorem power_cap (env : StakeEnv) (ms : List Msg) (he : envValid env = true)
     (ha : amountsValid ms = true) (h : comDecide genComCfg env ms = .ok true)
     (v : String) (a tok : Int)
-    (hv : (v, a) ∈ (finalPending env Pending.empty (leavesList ms)).byVal) (ht : env.tokens v = some tok) :
-    1000 * (tok + (finalPending env Pending.empty (leavesList ms)).get v) <
-      66 * (env.total + (finalPending env Pending.empty (leavesList ms)).total) := by
+    (hv : (v, a) ∈ (finalX env Pending.empty (leavesList ms)).2.byVal)
+    (ht : (finalX env Pending.empty (leavesList ms)).1.tokens v = some tok) :
+    1000 * (tok + (finalX env Pending.empty (leavesList ms)).2.get v) <
+      66 * ((finalX env Pending.empty (leavesList ms)).1.total + (finalX env Pending.empty (leavesList ms)).2.total) := by
   have hend := (stakingOK_parts (staking_rules env ms he ha h)).2.2
   have := (List.all_eq_true.mp hend) (v, a) hv
   simp only [ht, shareBelow, docMaxVotingPower, Dec.P] at this
@@ -149,8 +166,43 @@ theorem power_cap (env : StakeEnv) (ms : List Msg) (he : envValid env = true)
     as it will be when it executes -/
 theorem power_cap_each (env : StakeEnv) (ms : List Msg) (he : envValid env = true)
     (ha : amountsValid ms = true) (h : comDecide genComCfg env ms = .ok true) :
-    seqCapOK docMaxVotingPower env Pending.empty (leavesList ms) = true :=
+    seqCapOKx docMaxVotingPower env Pending.empty (leavesList ms) = true :=
   (stakingOK_parts (staking_rules env ms he ha h)).2.1
+
+/-- the code as it is refuses a (re)delegation to a validator that is not in the store, so in
+    particular "create validator X, then delegate to X" in one transaction is refused — the decorator
+    never has to judge a validator whose self-delegation it cannot see -/
+theorem no_delegation_to_unstored_validator (env : StakeEnv) (ms : List Msg)
+    (h : comDecide genComCfg env ms = .ok true) (url v : String) (amt : Int)
+    (hl : ⟨url, .delegate v amt⟩ ∈ leavesList ms) : (env.tokens v).isSome = true := by
+  have hu : genComCfg.unwrap = true := by simp [genComCfg, commission_unwraps_exec]
+  unfold comDecide comRun comMsgs at h
+  rw [if_pos hu] at h
+  cases hr : validateAll genComCfg env Pending.empty (leavesList ms) with
+  | error e => simp [hr, Except.map] at h
+  | ok o =>
+    cases o with
+    | none => simp [hr, Except.map] at h
+    | some q =>
+      have : ∀ (ls : List Leaf) (p q : Pending), validateAll genComCfg env p ls = .ok (some q) →
+          ∀ l ∈ ls, targetsKnown env l.body = true := by
+        intro ls
+        induction ls with
+        | nil => intro _ _ _ l hl; simp at hl
+        | cons l' ls ih =>
+          intro p q hq l hl
+          unfold validateAll at hq
+          cases hv : validateBody genComCfg env p l'.body with
+          | error e => simp [hv] at hq
+          | ok o =>
+            cases o with
+            | none => simp [hv] at hq
+            | some p' =>
+              simp only [hv] at hq
+              rcases List.mem_cons.mp hl with rfl | hl'
+              · exact validateBody_known hv
+              · exact ih p' q hq l hl'
+      simpa [targetsKnown] using this _ _ _ hr _ hl
 
 /-- the single-delegation instance: (tok + amt) / (total + amt) < 6.6 % -/
 theorem power_cap_single (env : StakeEnv) (url v : String) (amt tok : Int) (he : envValid env = true) (hamt : 0 ≤ amt)
@@ -159,7 +211,7 @@ theorem power_cap_single (env : StakeEnv) (url v : String) (amt tok : Int) (he :
   have ha : amountsValid [.leaf ⟨url, .delegate v amt⟩] = true := by
     simp [amountsValid, leavesList, Msg.leaves, bodyAmountsValid, hamt]
   have := power_cap_each env _ he ha h
-  simp only [leavesList, Msg.leaves, List.append_nil, seqCapOK, capOK, ht, Bool.and_true, Pending.empty, Pending.get,
+  simp only [leavesList, Msg.leaves, List.append_nil, seqCapOKx, capOK, ht, Bool.and_true, Pending.empty, Pending.get,
     List.filter_nil, List.map_nil, List.sum_nil, Int.zero_add, shareBelow, docMaxVotingPower, Dec.P] at this
   norm_num at this
   omega
@@ -200,6 +252,14 @@ example : comDecide genComCfg exEnv
     [.exec [.leaf ⟨"/cosmos.staking.v1beta1.MsgDelegate", .delegate "v3" 172⟩],
      .leaf ⟨"/cosmos.staking.v1beta1.MsgDelegate", .delegate "v3" 172⟩] = .ok false ∧
     comDecide genComCfg exEnv [.leaf ⟨"/cosmos.staking.v1beta1.MsgDelegate", .delegate "v3" 172⟩] = .ok true := by
+  decide +kernel
+
+/-- C19-2: "create validator x (self-delegation 1000), then delegate 420 to x" is refused by the code as
+    it is; and if a decorator accepted it, the specification would say no: 1420·1000 ≥ 66·21420 -/
+example :
+    let ms : List Msg := [.leaf ⟨"/cosmos.staking.v1beta1.MsgCreateValidator", .createVal 50000000000000000 "x" 1000⟩,
+                          .exec [.leaf ⟨"/cosmos.staking.v1beta1.MsgDelegate", .delegate "x" 420⟩]]
+    comDecide genComCfg exEnv ms = .ok false ∧ stakingOK true docMinCommission docMaxVotingPower exEnv ms = false := by
   decide +kernel
 
 /-! ### the pinned tree's three defects, as decided negative witnesses on its (hand-copied) table -/
